@@ -45,7 +45,7 @@ def check(rep, tier, seed, specs=None, n_override=None):
             te = r['tool_error']
             rep.count('tool_crashes')
             rep.add_violation('tool-crash', f"callVariant raised {te['type']}: {te['msg']} (MUST has {r.get('n_must')} peptides)\n"
-                              f"{te['tb'][-700:]}", spec, mech=crash_mech(te), detail=r.get('describe'))
+                              f"{te['tb'][-700:]}", spec, mech=crash_mech(te, r), detail=r.get('describe'))
             continue
         for p in r.get('missing_exc') or []:
             rep.add_violation('missing', p, spec, mech='KF-CTX')
@@ -71,8 +71,14 @@ def check(rep, tier, seed, specs=None, n_override=None):
     rep.min_nontrivial = 50 if specs and len(specs) > 200 else 1
 
 
-def crash_mech(te):
-    msg = te.get('msg', '')
+def crash_mech(te, r=None):
+    msg, tb = te.get('msg', ''), te.get('tb', '')
     if 'Downstream node becomes empty' in msg:
         return 'KF-CRASH-DOWNSTREAM-EMPTY'
+    if 'No reference edge was found' in msg and r and r.get('has_nested'):
+        return 'KF-NESTED'
+    if 'Failed to finish transcript' in msg and 'call_peptide_circ_rna' in tb:
+        return 'KF-CIRC-HANG'
+    if te.get('type') == 'IndexError' and 'call_peptide_fusion' in tb and 'TVGNode.py' in tb and '_get_nth_rf_index' in tb:
+        return 'KF-CRASH-FUSION-EMPTY-NODE'
     return None
